@@ -23,7 +23,7 @@ from .tokdiff import TokOracle, help_names, assume_not_named, run_tok_job, finis
 from .corpus import CORPUS
 
 PROP = "C07"
-GRAMMARS = ["a1", "a2", "a3", "a4", "a5"]
+GRAMMARS = ["a1", "a2", "a3", "a4", "a5", "a6", "a7"]
 
 F_A = G.Named("req_flag", "a", ["alpha"])
 F_B = G.Named("arg", "b", ["beta"], arity="req")
@@ -172,7 +172,7 @@ class Oracle(TokOracle):
     def judge(self, ex, g, words, cls, payload, state, report, out):
         items = G.items_of_words(words)
         env = spec_env(ex)
-        mode = {"a1": "bare", "a2": "optional", "a3": "many", "a4": "flag3", "a5": "flag3c"}[g.name]
+        mode = {"a1": "bare", "a2": "optional", "a3": "many", "a4": "flag3", "a5": "flag3c", "a6": "bare", "a7": "many"}[g.name]
 
         def leaf(ex2, sres):
             out["spec_leaves"] += 1
